@@ -1,4 +1,4 @@
-import FimVerif.Proofs.Lemmas.TopoInvCreate
+import FimVerif.Proofs.Lemmas.TopoInvNames
 /-!
 # C07 — `Node.add_component` / `Node.add_storage`: every `add_node; add_link` pair of the catalogue expansion keeps `InvS`,
 so the invariant holds wherever the call stops (it is not atomic: C09).
@@ -12,13 +12,13 @@ theorem findNode_congr {i : Nid} {s s' : Topo} (hn : s'.nodes = s.nodes) {x : GN
   unfold findNode findAll at *
   rw [hn, this]
 
-theorem findNode_ext_old {i : Nid} {s : Topo} {x n : GNode} {E : List GEdge} (h : findNode i s = (.ok x, s))
-    (hf : ∀ m ∈ s.nodes, m.nid ≠ n.nid) : findNode i (ext s [n] E) = (.ok x, ext s [n] E) :=
-  findNode_congr (s := pushNode n s) (s' := ext s [n] E) rfl (findNode_push_old h hf)
+theorem findNode_grow_old {i : Nid} {s : Topo} {x n : GNode} {E : List GEdge} (h : findNode i s = (.ok x, s))
+    (hf : ∀ m ∈ s.nodes, m.nid ≠ n.nid) : findNode i (grow s [n] E) = (.ok x, grow s [n] E) :=
+  findNode_congr (s := pushNode n s) (s' := grow s [n] E) rfl (findNode_push_old h hf)
 
-theorem findNode_ext_new {s : Topo} {n : GNode} {E : List GEdge} (hf : ∀ m ∈ s.nodes, m.nid ≠ n.nid) :
-    findNode n.nid (ext s [n] E) = (.ok n, ext s [n] E) :=
-  findNode_congr (s := pushNode n s) (s' := ext s [n] E) rfl (findNode_push_new hf)
+theorem findNode_grow_new {s : Topo} {n : GNode} {E : List GEdge} (hf : ∀ m ∈ s.nodes, m.nid ≠ n.nid) :
+    findNode n.nid (grow s [n] E) = (.ok n, grow s [n] E) :=
+  findNode_congr (s := pushNode n s) (s' := grow s [n] E) rfl (findNode_push_new hf)
 
 theorem bind_assoc_apply {α β γ : Type} (m : M Topo α) (g : α → M Topo β) (k : β → M Topo γ) (s : Topo) :
     ((m >>= g) >>= k) s = (m >>= fun a => g a >>= k) s := by
@@ -40,18 +40,18 @@ structure AttachStable (P : Topo → Prop) : Prop where
   closed : ∀ s, P s → ClosedOk s
   attach : ∀ {s : Topo} {p n : GNode} {rel : Rel}, P s → p ∈ s.nodes → (∀ m ∈ s.nodes, m.nid ≠ n.nid) → nodeOk n = true →
     edgeOk ⟨p.ref, n.ref, rel⟩ = true → p.cls ≠ .link → (n.cls = .connectionPoint → n.typ ≠ "ServicePort") →
-    P (ext s [n] [⟨p.ref, n.ref, rel⟩])
+    NameFree s p.ref rel n → P (grow s [n] [⟨p.ref, n.ref, rel⟩])
 
 theorem attachStable_invS : AttachStable InvS :=
-  ⟨fun _ h => h.ids, fun _ h => h.closed, fun h hp hf hv he hpl hsp => invS_attach h hp hf hv he hpl hsp⟩
+  ⟨fun _ h => h.ids, fun _ h => h.closed, fun h hp hf hv he hpl hsp _ => invS_attach h hp hf hv he hpl hsp⟩
 theorem attachStable_invD : AttachStable InvD :=
-  ⟨fun _ h => h.ids, fun _ h => h.closed, fun h hp hf hv he hpl _ => invD_attach h hp hf hv he hpl⟩
+  ⟨fun _ h => h.ids, fun _ h => h.closed, fun h hp hf hv he hpl _ _ => invD_attach h hp hf hv he hpl⟩
 
 /-- `add_node` of an element followed by `add_link` from its container: either nothing happened, or the element hangs
 off the container and the rest of the call runs in the extended state -/
 theorem inv_attach_step {P : Topo → Prop} (hP : AttachStable P) {β : Type} {s : Topo} {n p : GNode} {pid : Nid} {rel : Rel} {f : Unit → M Topo β} (h : P s)
     (hp : findNode pid s = (.ok p, s))
-    (hk : (∀ m ∈ s.nodes, m.nid ≠ n.nid) → P (f () (ext s [n] [⟨p.ref, n.ref, rel⟩])).2) :
+    (hk : (∀ m ∈ s.nodes, m.nid ≠ n.nid) → P (f () (grow s [n] [⟨p.ref, n.ref, rel⟩])).2) :
     P ((addGNode n >>= fun _ => addEdge pid rel n.nid >>= f) s).2 := by
   rcases addGNode_cases n s with he | ⟨he, hn⟩
   · rw [bind_err he]; exact h
@@ -98,9 +98,9 @@ theorem inv_ifaceLoop {P : Topo → Prop} (hP : AttachStable P) (nsId : Nid) (ns
     have hci := hok (ci, iid) (List.mem_cons_self ..)
     refine inv_attach_step hP (n := ⟨.connectionPoint, iid, aname ++ "-" ++ ci.port, ci.itype, ci.props⟩) h hns (fun hn => ?_)
     obtain ⟨hm, _, _⟩ := findNode_ok hns
-    refine ih _ ?_ (findNode_ext_old hns hn) (fun y hy => hok y (List.mem_cons_of_mem _ hy))
+    refine ih _ ?_ (findNode_grow_old hns hn) (fun y hy => hok y (List.mem_cons_of_mem _ hy))
     exact hP.attach h hm hn (by simp [nodeOk, classOk_all, hci.1]) (by simp [edgeOk, GNode.ref, hnc]) (by simp [hnc])
-      (fun _ => hci.2)
+      (fun _ => hci.2) (.inl rfl)
 
 /-- the writing part of `compNew` (its join point after the validations) -/
 def compBody (b : Bool) (parent id : Nid) (c1 : Nat) (a : CompArgs) (p : GNode) (e : Rules.CatEntry) : M Topo Nid :=
@@ -121,7 +121,8 @@ def compBody (b : Bool) (parent id : Nid) (c1 : Nat) (a : CompArgs) (p : GNode) 
       Pure.pure id
 
 theorem inv_compBody {P : Topo → Prop} (hP : AttachStable P) (b : Bool) (parent id : Nid) (c1 : Nat) (a : CompArgs) (p pn : GNode) (e : Rules.CatEntry) (s : Topo) (h : P s)
-    (hp : findNode parent s = (.ok pn, s)) (hpc : pn.cls = .networkNode) (he : EntryOk e) (hb : b = e.hasIfaces) :
+    (hp : findNode parent s = (.ok pn, s)) (hpc : pn.cls = .networkNode) (he : EntryOk e) (hb : b = e.hasIfaces)
+    (hnm : ∀ m ∈ kids s pn.ref .has .component, m.name ≠ a.name) :
     P (compBody b parent id c1 a p e s).2 := by
   unfold compBody
   rcases (if b = true then ifaceIds a.ifNids e.ifaces.length c1 else ([], c1)) with ⟨ifIds, c2⟩
@@ -131,22 +132,24 @@ theorem inv_compBody {P : Topo → Prop} (hP : AttachStable P) (b : Bool) (paren
   refine ro_step (Q := fun r => P r.2) (by ro) (fun _ => h) (fun kw _ => ?_)
   obtain ⟨hpm, _, _⟩ := findNode_ok hp
   refine inv_attach_step hP (n := ⟨.component, id, a.name, e.ctype, _⟩) h hp (fun hn => ?_)
-  have h1 : P (ext s [⟨.component, id, a.name, e.ctype, dictUpdate [("Model", e.model), ("Details", e.details), ("StitchNode", "false")] kw⟩]
+  have h1 : P (grow s [⟨.component, id, a.name, e.ctype, dictUpdate [("Model", e.model), ("Details", e.details), ("StitchNode", "false")] kw⟩]
       [⟨pn.ref, GNode.ref ⟨.component, id, a.name, e.ctype, dictUpdate [("Model", e.model), ("Details", e.details), ("StitchNode", "false")] kw⟩, .has⟩]) :=
     hP.attach h hpm hn (by simp [nodeOk, classOk_all, he.ctype]) (by simp [edgeOk, GNode.ref, hpc]) (by simp [hpc]) (by simp)
+      (.inr (.inr hnm))
   split
   · rename_i hifs
     refine inv_attach_step hP (n := ⟨.networkService, nsId, p.name ++ "-" ++ a.name ++ e.nsSuffix, e.nsType, _⟩) h1
-      (findNode_ext_new hn) (fun hn2 => ?_)
+      (findNode_grow_new hn) (fun hn2 => ?_)
     rw [state_after_bind _ _ (fun _ _ => rfl)]
-    refine inv_ifaceLoop hP nsId _ a.name rfl _ _ ?_ (findNode_ext_new hn2) ?_
-    · exact hP.attach h1 (by simp [ext]) hn2 (by simp [nodeOk, classOk_all, he.nstype (hb ▸ hifs)]) (by simp [edgeOk, GNode.ref])
-        (by simp) (by simp)
+    refine inv_ifaceLoop hP nsId _ a.name rfl _ _ ?_ (findNode_grow_new hn2) ?_
+    · exact hP.attach h1 (by simp [grow]) hn2 (by simp [nodeOk, classOk_all, he.nstype (hb ▸ hifs)]) (by simp [edgeOk, GNode.ref])
+        (by simp) (by simp) (nameFree_new_parent (hP.closed _ h) hpm hn)
     · intro x hx
       exact he.ifaces x.1 (List.of_mem_zip hx).1
   · exact h1
 
 theorem inv_compNew {P : Topo → Prop} (hP : AttachStable P) (fl : Flavour) (c : Nat) (parent : Nid) (a : CompArgs) (s : Topo) (hh : HandleOk s parent .networkNode)
+    (hnm : ∀ pn, findNode parent s = (.ok pn, s) → ∀ m ∈ kids s pn.ref .has .component, m.name ≠ a.name)
     (h : P s) : P (compNew fl c parent a s).2 := by
   obtain ⟨nm, nid, ctype, model, nsNid, ifNids, nLabels, props⟩ := a
   unfold compNew
@@ -163,7 +166,7 @@ theorem inv_compNew {P : Topo → Prop} (hP : AttachStable P) (fl : Flavour) (c 
   obtain ⟨hpm, hpi, _⟩ := findNode_ok hp
   have hpc : p.cls = .networkNode := hh p hpm hpi
   have leaf : ∀ b, b = e.hasIfaces → P (compBody b parent id c1 ⟨nm, nid, ctype, model, nsNid, ifNids, nLabels, props⟩ p e s).2 :=
-    fun b hb => inv_compBody hP b parent id c1 _ p p e s h hp hpc heo hb
+    fun b hb => inv_compBody hP b parent id c1 _ p p e s h hp hpc heo hb (hnm p hp)
   split
   · rename_i hif
     have lf := leaf true hif.symm
@@ -179,17 +182,17 @@ theorem inv_compNew {P : Topo → Prop} (hP : AttachStable P) (fl : Flavour) (c 
 theorem inv_addComponent {P : Topo → Prop} (hP : AttachStable P) (fl : Flavour) (c : Nat) (parent : Nid) (a : CompArgs) (s : Topo) (hh : HandleOk s parent .networkNode)
     (h : P s) : P (addComponent fl c parent a s).2 := by
   unfold addComponent
-  refine ro_step (Q := fun r => P r.2) (by ro) (fun _ => h) (fun _ _ => ?_)
-  refine ro_step (Q := fun r => P r.2) (by ro) (fun _ => h) (fun _ _ => ?_)
-  exact inv_compNew hP fl c parent a s hh h
+  refine ro_step (Q := fun r => P r.2) (by ro) (fun _ => h) (fun comps hch => ?_)
+  refine ro_step (Q := fun r => P r.2) (by ro) (fun _ => h) (fun _ hg => ?_)
+  exact inv_compNew hP fl c parent a s hh (sibling_free (hP.ids _ h) hch (guard_ok hg)) h
 
 theorem inv_addStorage {P : Topo → Prop} (hP : AttachStable P) (fl : Flavour) (c : Nat) (parent : Nid) (name : String) (nid : Option Nid) (props : List PropArg) (s : Topo)
     (hh : HandleOk s parent .networkNode) (h : P s) : P (addStorage fl c parent name nid props s).2 := by
   unfold addStorage
   refine ro_step (Q := fun r => P r.2) (by ro) (fun _ => h) (fun _ _ => ?_)
-  refine ro_step (Q := fun r => P r.2) (by ro) (fun _ => h) (fun _ _ => ?_)
-  refine ro_step (Q := fun r => P r.2) (by ro) (fun _ => h) (fun _ _ => ?_)
-  exact inv_compNew hP fl c parent _ s hh h
+  refine ro_step (Q := fun r => P r.2) (by ro) (fun _ => h) (fun comps hch => ?_)
+  refine ro_step (Q := fun r => P r.2) (by ro) (fun _ => h) (fun _ hg => ?_)
+  exact inv_compNew hP fl c parent _ s hh (sibling_free (hP.ids _ h) hch (guard_ok hg)) h
 
 theorem invS_addComponent (fl : Flavour) (c : Nat) (parent : Nid) (a : CompArgs) (s : Topo) (hh : HandleOk s parent .networkNode)
     (h : InvS s) : InvS (addComponent fl c parent a s).2 := inv_addComponent attachStable_invS fl c parent a s hh h
